@@ -28,10 +28,7 @@ def value_map(case, factors=None):
 
 def conflicts(case):
     """Situations whose semantics the statement does not define (counted discards)."""
-    for r in case.get("relations", []):
-        for c in case.get("constraints", []):
-            if c["target"] in (r["source"], r["target"]):
-                return "constraint on a related clp"
+    # (a constraint and a relation on the same target at the same index are detected per index by the reference)
     for d in case["datasets"]:
         if d.get("global_megacomplex") and d.get("scale"):
             return "dataset scale on a full-model dataset"
